@@ -692,16 +692,19 @@ def rule_cumsum(chk, prog):
   g = prog.func(f'{JU}._parallel_dot_cumsum')
   v, ctx, env = ev2.run(g)
   site, loc = f'{JU}._parallel_dot_cumsum', (g.file, g.lineno)
-  parts = env.get('partials')
+  def unique_in(pred):
+    xs = list({t for t in sym.walk(v) if pred(t)})
+    return xs[0] if len(xs) == 1 else None
+  parts = unique_in(lambda t: t.k == 'call' and util.callee_name(t) == '_single_device_dot_cumsum')
   okp = parts is not None and util.callee_name(parts) == '_single_device_dot_cumsum' and util.call_kwargs(parts).get('axis') == S('axis') and util.call_kwargs(parts).get('reverse') == S('reverse')
   chk.check(okp, rule, f'{site}: starts from the local prefix sums along the same axis and direction', sym.show(parts)[:120] if parts is not None else 'missing', loc)
-  last = env.get('last_partial')
-  okl = last is not None and last.k == 'call' and last.a[0] == Term('ext', 'jax.lax.index_in_dim') and last.a[1][0] == parts and sym.show(last.a[1][1], maxdepth=20) == 'φ(reverse ? 0 : -1)' and last.a[1][2] == S('axis')
+  last = unique_in(lambda t: t.k == 'call' and t.a[0] == Term('ext', 'jax.lax.index_in_dim'))
+  okl = last is not None and last.k == 'call' and last.a[0] == Term('ext', 'jax.lax.index_in_dim') and last.a[1][0] == parts and last.a[1][1] == sym.mk_phi(S('reverse'), sym.const(0), sym.const(-1)) and last.a[1][2] == S('axis')
   chk.check(okl, rule, f'{site}: each shard contributes its total = last (first, if reversed) local prefix sum', sym.show(last)[:120] if last is not None else 'missing', loc, 'index_in_dim(partials, 0 if reverse else -1, axis)', sym.show(last)[:120] if last is not None else '')
-  sums = env.get('sums')
+  sums = unique_in(lambda t: t.k == 'call' and t.a[0] == Term('ext', 'jax.lax.all_gather'))
   oks = sums is not None and sums.k == 'call' and sums.a[0] == Term('ext', 'jax.lax.all_gather') and list(sums.a[1][:2]) == [last, S('axis_name')] and util.call_kwargs(sums).get('tiled') == sym.TRUE
   chk.check(oks, rule, f'{site}: shard totals are all-gathered over the named mesh axis', sym.show(sums)[:120] if sums is not None else 'missing', loc)
-  tot = env.get('total')
+  tot = unique_in(lambda t: t.k == 'loop')
   okt = False
   if tot is not None and tot.k == 'loop':
     body = tot.a[2]
